@@ -461,3 +461,29 @@ def _slot_of(name):
     """RBE0_tag / RBE_tag -> 'RBE' + tag (candidate index dropped)"""
     head, _, tail = name.partition("_")
     return head.rstrip("0123456789") + "_" + tail
+
+
+def expanded_config(config, rng=None):
+    """The same model with every candidate list written out as explicit decays; with rng the entries of each mother are shuffled,
+    so that chains of the same topology are no longer contiguous in the declaration."""
+    import copy
+    import itertools
+
+    c = copy.deepcopy(config)
+    slots = {k: v for k, v in c["particle"].items() if isinstance(v, list)}
+    newdec = {}
+    for mother, entries in c["decay"].items():
+        ents = entries if isinstance(entries[0], list) else [entries]
+        for m_ in slots.get(mother, [mother]):
+            for ent in ents:
+                names_ = [x for x in ent if not isinstance(x, dict)]
+                optd = [x for x in ent if isinstance(x, dict)]
+                for combo in itertools.product(*[slots.get(x, [x]) for x in names_]):
+                    newdec.setdefault(m_, []).append(list(combo) + copy.deepcopy(optd))
+    if rng is not None:
+        for m_ in newdec:
+            newdec[m_] = [newdec[m_][j] for j in rng.permutation(len(newdec[m_]))]
+    c["decay"] = newdec
+    for k in slots:
+        del c["particle"][k]
+    return c
